@@ -208,6 +208,44 @@ def build(P):
              extra_contracts=dict(base, **{idx.lookup(f"{OB}:DynamicObject.get_distance").fq: dist_named,
                                            idx.lookup(f"{SC}:SensingFrameConfig.get_scale_factor").fq: scale_named}))
 
+    # ---------------------------------------------------------------- the manager's pre-crop: per area, the cloud's points inside the area and outside EVERY scaled box
+    MGR = idx.lookup("manager.sensing_evaluation_manager:SensingEvaluationManager")
+    AREAS, CR = "non_detection_areas", "cropped_pointcloud"
+
+    def mk_mgr(it):
+        cfg = it.ctx.new_cell("obj", {}, idx.lookup("config.sensing_evaluation_config:SensingEvaluationConfig"))
+        it.ctx.cell(cfg).update(metrics_params=it.ctx.new_cell("dict", ([VStr("box_scale_0m"), VStr("box_scale_100m")],
+                                                                        [VReal(it.ctx.fresh("scale0", R)), VReal(it.ctx.fresh("scale100", R))])))
+        o = it.ctx.new_cell("obj", {}, MGR)
+        it.ctx.cell(o).update(evaluator_config=cfg)
+        return o
+    B0, B100 = "self.evaluator_config.metrics_params['box_scale_0m']", "self.evaluator_config.metrics_params['box_scale_100m']"
+    MSCALE = lambda o: f"(0.01 * ({B100} - {B0}) * uf_real('distance_from_ego', {o}) + {B0})"
+    m_outside = lambda p, k: f"forall(m, 0, {k}, not inside_box({p}, {G}[m], {MSCALE(G + '[m]')}))"
+    in_area = lambda c, j: f"forall(p, cloud_has({c}, p) == (cloud_has(pointcloud, p) and inside_area(p, {AREAS}[{j}])))"
+    done = lambda c, j: f"forall(p, cloud_has({c}, p) == (cloud_has(pointcloud, p) and inside_area(p, {AREAS}[{j}]) and {m_outside('p', nG)}))"
+    m_untouched = f"len({AREAS}) == old(len({AREAS})) and len({G}) == old(len({G})) and forall(c, 0, len({G}), {G}[c] is old({G}[c]))"
+    P.verify("manager.sensing_evaluation_manager:SensingEvaluationManager.crop_pointcloud", name="SensingEvaluationManager.crop_pointcloud",
+             contract=Contract("manager.sensing_evaluation_manager:SensingEvaluationManager.crop_pointcloud", cut=False,
+                               params={"self": mk_mgr, G: TSList(DO), "pointcloud": CLOUD, AREAS: TSList(TOpaque("area")), "transforms": NONE},
+                               locals={CR: TSList(CLOUD), "outside_points": CLOUD, "points": CLOUD},
+                               loops={1: LoopSpec(index="a", invariants=E(
+                                          "one_cloud_per_area_so_far", f"not is_old({CR}) and allocated({CR}) and len({CR}) == a",
+                                          "each_holds_the_points_inside_its_area", f"forall(c, 0, a, {in_area(CR + '[c]', 'c')})", "inputs_untouched", m_untouched)),
+                                      2: LoopSpec(index="i", invariants=E(
+                                          "one_cloud_per_area", f"not is_old({CR}) and allocated({CR}) and len({CR}) == len({AREAS})",
+                                          "finished_areas_hold_the_points_outside_every_scaled_box", f"forall(c, 0, i, {done(CR + '[c]', 'c')})",
+                                          "the_others_still_hold_the_points_inside_their_area", f"forall(c, i, len({AREAS}), {in_area(CR + '[c]', 'c')})", "inputs_untouched", m_untouched)),
+                                      3: LoopSpec(index="k", invariants=E(
+                                          "one_cloud_per_area", f"not is_old({CR}) and allocated({CR}) and len({CR}) == len({AREAS}) and 0 <= i and i < len({AREAS})",
+                                          "points_left_are_those_outside_the_boxes_seen_so_far",
+                                          f"forall(p, cloud_has(outside_points, p) == (cloud_has(pointcloud, p) and inside_area(p, {AREAS}[i]) and {m_outside('p', 'k')}))",
+                                          "finished_areas_hold_the_points_outside_every_scaled_box", f"forall(c, 0, i, {done(CR + '[c]', 'c')})",
+                                          "the_others_still_hold_the_points_inside_their_area", f"forall(c, i, len({AREAS}), {in_area(CR + '[c]', 'c')})", "inputs_untouched", m_untouched))},
+                               ensures=E("one_cloud_per_area", f"len(result) == len({AREAS})",
+                                         "each_holds_exactly_the_points_inside_its_area_and_outside_every_scaled_box", f"forall(c, 0, len({AREAS}), {done('result[c]', 'c')})")),
+             extra_contracts=dict(with_obj, **{idx.lookup(f"{OB}:DynamicObject.get_distance").fq: dist_named}))
+
     # ---------------------------------------------------------------- evaluate_frame: both evaluations always run, on the arguments given
     def mk_frame2(it):
         o = mk_frame(it)
